@@ -40,7 +40,6 @@ use crate::timing::TimestampProvider;
 use crate::ws::{Message, WebSocket};
 use alloc::boxed::Box;
 use bytes::Bytes;
-use core::future::poll_fn;
 use hashbrown::HashMap;
 use rand::Rng;
 use rand::rngs::SmallRng;
@@ -137,9 +136,9 @@ pub struct Multiplexor<R = SmallRng> {
     datagram_rx: tokio::sync::Mutex<mpsc::Receiver<Datagram>>,
     /// Channel for a `Multiplexor` to receive newly
     /// established streams after the peer requests one.
-    con_recv_stream_rx: Mutex<mpsc::Receiver<MuxStream>>,
+    con_recv_stream_rx: tokio::sync::Mutex<mpsc::Receiver<MuxStream>>,
     /// Channel for `Bnd` requests.
-    bnd_request_rx: Option<Mutex<mpsc::Receiver<BindRequest<'static>>>>,
+    bnd_request_rx: Option<tokio::sync::Mutex<mpsc::Receiver<BindRequest<'static>>>>,
     /// Number of retries to find a suitable flow ID
     /// See [`config::Options`] for more details.
     max_flow_id_retries: usize,
@@ -232,8 +231,8 @@ impl<R: Rng + Send> Multiplexor<R> {
             flows: flows.clone(),                       // cheap
             dropped_flows_tx: dropped_flows_tx.clone(), // cheap
             datagram_rx: tokio::sync::Mutex::new(datagram_rx),
-            con_recv_stream_rx: Mutex::new(con_recv_stream_rx),
-            bnd_request_rx: bnd_request_rx.map(Mutex::new),
+            con_recv_stream_rx: tokio::sync::Mutex::new(con_recv_stream_rx),
+            bnd_request_rx: bnd_request_rx.map(tokio::sync::Mutex::new),
             max_flow_id_retries: options.max_flow_id_retries,
             rwnd: options.rwnd,
             rng: Mutex::new(rng),
@@ -321,7 +320,11 @@ impl<R: Rng + Send> Multiplexor<R> {
     /// be lost.
     #[tracing::instrument(skip(self), level = "debug")]
     pub async fn accept_stream_channel(&self) -> Result<MuxStream> {
-        poll_fn(|cx| self.con_recv_stream_rx.lock().poll_recv(cx))
+        // Several tasks may wait here (see `get_datagram`): queue on the async lock
+        self.con_recv_stream_rx
+            .lock()
+            .await
+            .recv()
             .await
             .ok_or(Error::Closed)
     }
@@ -414,9 +417,8 @@ impl<R: Rng + Send> Multiplexor<R> {
     #[tracing::instrument(skip(self), level = "debug")]
     pub async fn next_bind_request(&self) -> Result<BindRequest<'static>> {
         if let Some(rx) = self.bnd_request_rx.as_ref() {
-            poll_fn(|cx| rx.lock().poll_recv(cx))
-                .await
-                .ok_or(Error::Closed)
+            // Several tasks may wait here (see `get_datagram`): queue on the async lock
+            rx.lock().await.recv().await.ok_or(Error::Closed)
         } else {
             Err(Error::UnsupportedOperation)
         }
